@@ -206,7 +206,7 @@ def write_evidence(pid, tier, seed, aud, ctx, wall, nviol, checker_cmd):
         "obligations": aud["obligations"],
         "discharged": aud["discharged"],
         "checker_cmd": checker_cmd,
-        "trusted_base": TRUSTED_BASE,
+        "trusted_base": TRUSTED_BASE + list(ctx.extra.pop("trusted_extra", [])),
         "theorems": aud["theorems"],
         "evaluations": ctx.evaluations,
         "distinct_nontrivial": len(ctx.nontrivial),
